@@ -116,7 +116,20 @@ def check_case(case):
                 inp = b""
             else:
                 inp = built.data
-            if inp and case.get("slow_pipe") is not None:
+            if inp and case.get("slow_pipe") is not None and case["slow_pipe"] % 3 == 0:
+                # standard input is a regular file that an earlier reader has already consumed a part of (shell: { head -c K >/dev/null; tool; } < file):
+                # the decoder must go on from the current position
+                k_ = 1 + case["slow_pipe"] % 97
+                cp = os.path.join(d, "container.bin")
+                with open(cp, "wb") as f:
+                    f.write(bytes((7 * i + 3) & 255 for i in range(k_)) + inp)
+                fd = os.open(cp, os.O_RDONLY)
+                try:
+                    os.lseek(fd, k_, os.SEEK_SET)
+                    pr = subprocess.run(argv, stdin=fd, stdout=subprocess.PIPE, stderr=subprocess.PIPE, timeout=120)
+                finally:
+                    os.close(fd)
+            elif inp and case.get("slow_pipe") is not None:
                 # the producer delivers the input in two pieces, the second only after the decoder has taken the first out of the pipe:
                 # a reader that treats a short read as the end (or as a full one) decodes something else; timing can only hide that, not fake it
                 import fcntl, struct, termios, time, threading
